@@ -116,7 +116,8 @@ bool send_all(NativeSocket socket, const char* data, std::size_t length) {
 #ifdef _WIN32
         const auto sent = send(socket, data + total_sent, static_cast<int>(length - total_sent), 0);
 #else
-        const auto sent = send(socket, data + total_sent, length - total_sent, 0);
+        // MSG_NOSIGNAL: a client that has gone away must yield an error here, not SIGPIPE for the daemon.
+        const auto sent = send(socket, data + total_sent, length - total_sent, MSG_NOSIGNAL);
 #endif
         if (sent <= 0) {
             return false;
